@@ -343,7 +343,7 @@ func propC08(w *World, r *Report) {
 	}
 	// N5
 	for _, fn := range []*ssa.Function{k.updateBg, k.calcThresh} {
-		for _, b := range d.Detect.Blocks {
+		for _, b := range detectBlocks(w, d, k) {
 			for _, in := range b.Instrs {
 				if call, ok := in.(*ssa.Call); ok && call.Call.StaticCallee() == fn {
 					gs := e.guardsOf(b)
